@@ -13,6 +13,20 @@ def optStr : Option (List Char) → Sexp
   | none => .list [.atom "none"]
 def bad : Sexp := .list [.atom "bad-request"]
 
+/-- `Plugin::transform_document_for_runtime_server` of the natively available plugins, by short name:
+    the model plugin returns the document without `@model`; the graphql-scalars plugin has no transform (`None`). -/
+def pluginTransform (p : String) (d : TsDoc) : Option TsDoc :=
+  if p = "model" then some (GqlPrint.removeModel d) else none
+
+/-- generate.rs: `config.plugins.iter().fold(remove_builtins(schema), |schema, plugin| match
+    plugin.transform_document_for_runtime_server(&schema) { Some(next) => next, None => schema })` -/
+def runtimeServerSchema (d : TsDoc) (ps : List String) : TsDoc :=
+  ps.foldl (fun d p => (pluginTransform p d).getD d) (GqlPrint.removeBuiltins d)
+
+def pluginNames : Sexp → Option (List String)
+  | .list xs => xs.mapM fun | .str s => some s | _ => none
+  | _ => none
+
 def handle : Sexp → Sexp
   | .list [.atom "js.body", .str s] => okStr (JsTemplate.jsStringBody s.toList)
   | .list [.atom "js.cook", .str s] => optStr (Cook.cook s.toList)
@@ -47,6 +61,15 @@ def handle : Sexp → Sexp
   | .list [.atom "gql.server-module", d, m] =>
     match Dec.tsDoc d, Dec.bool? m with
     | some d, some m => okStr (GqlPrint.serverGraphqlOutput d m)
+    | _, _ => bad
+  | .list [.atom "gql.strip-plugins", d, ps] =>
+    match Dec.tsDoc d, pluginNames ps with
+    | some d, some ps => Sexp.ok [Enc.tsDoc (runtimeServerSchema d ps)]
+    | _, _ => bad
+  | .list [.atom "gql.server-module-plugins", d, ps] =>
+    match Dec.tsDoc d, pluginNames ps with
+    | some d, some ps =>
+      okStr (JsTemplate.serverModule (GqlPrint.ops (GqlPrint.printTsDoc (runtimeServerSchema d ps))))
     | _, _ => bad
   | .list [.atom "flush"] => .list [.atom "flushed"]
   | _ => bad
